@@ -403,6 +403,108 @@ SUBST_TOP = {"BITTARGET": "self.o", "VECSRC": "self.v", "VECTARGET": "self.w", "
 SUBST_SUB = {"BITTARGET": "self.outp[0]", "VECSRC": "self.inp", "VECTARGET": "self.outp", "INPUT": "self.inp", "INPUTBIT": "self.inp[0]"}
 
 
+# designs compiled from the SAME class object again after a rejected attempt: a module-level flag guards a real user
+# error at architecture level ("arch"), inside a context ("ctx"), inside a coroutine after an await ("coro") or inside a
+# sub-entity ("sub"); the history rejects once with the flag set, clears it and compiles the same class twice
+RETRY = {}
+
+
+def retry(name, body, pre=""):
+    RETRY[name] = HEADER + "FLAGS = {'bad': True}\n\n" + pre + "class E(cohdl.Entity):\n" + PORTS + body
+
+
+retry(
+    "retry_arch",
+    """
+    def architecture(self):
+        s0 = Signal[Unsigned[4]](0)
+        if FLAGS['bad']:
+            assert False, 'planted at architecture level'
+
+        @std.sequential(std.Clock(self.clk))
+        def proc():
+            s0.next = self.v + 1
+            self.w <<= s0
+            self.o <<= self.a
+""",
+)
+retry(
+    "retry_arch_after_ctx",
+    """
+    def architecture(self):
+        s0 = Signal[Unsigned[4]](0)
+
+        @std.sequential(std.Clock(self.clk))
+        def proc():
+            s0.next = self.v + 1
+            self.w <<= s0
+
+        @std.concurrent
+        def logic():
+            self.o <<= self.a & self.b
+
+        if FLAGS['bad']:
+            Signal[Bit](3)
+""",
+)
+retry(
+    "retry_ctx",
+    """
+    def architecture(self):
+        @std.sequential(std.Clock(self.clk), std.Reset(self.rst))
+        def proc():
+            if FLAGS['bad']:
+                self.o <<= self.v
+            with std.prefix("px"):
+                y = Signal[Bit](name=std.name("y"))
+                y <<= self.a
+            self.o <<= y
+            self.w <<= helper_inc(self.v)
+""",
+)
+retry(
+    "retry_coro",
+    """
+    def architecture(self):
+        @std.sequential(std.Clock(self.clk), std.Reset(self.rst))
+        async def proc():
+            self.w <<= self.v
+            await self.a
+            if FLAGS['bad']:
+                while self.b:
+                    continue
+            self.o <<= self.b
+            await true
+""",
+)
+retry(
+    "retry_sub",
+    """
+    def architecture(self):
+        x = Signal[Unsigned[4]]()
+        RInc(inp=self.v, outp=x)
+        RInc(inp=x, outp=self.w)
+
+        @std.concurrent
+        def logic():
+            self.o <<= self.a
+""",
+    pre="""class RInc(cohdl.Entity):
+    inp = Port.input(Unsigned[4])
+    outp = Port.output(Unsigned[4])
+
+    def architecture(self):
+        @std.concurrent
+        def logic():
+            if FLAGS['bad']:
+                self.inp <<= 1
+            self.outp <<= self.inp + 1
+
+
+""",
+)
+
+
 def markers(src):
     out = []
     for i, line in enumerate(src.split("\n")):
